@@ -188,10 +188,23 @@ def run_case(P):
                 conns = [m._connection if m is not None else None for m in ms]
                 if not all(conns):
                     states = [case.state_name(m) for m in ms]
+                    ic = "not-converged:%s/%s" % tuple(states)
+                    extra_info = ""
+                    if P["relay"] and all(P["no_listen"]):
+                        # relay-only topology: how many connections of each side are still open towards the relay
+                        nodes = [w._sim_node for w in case.ws]
+                        waiting = [0, 0]
+                        for l in case.W.net.links:
+                            for t in (l.a, l.b):
+                                if t.owner in nodes and not t.lost and not t.closing and \
+                                        getattr(t.peer.owner, "name", "") == "relay":
+                                    waiting[nodes.index(t.owner)] += 1
+                        ic += ":relay-only:waiting-at-relay=%s" % ("one-side" if sorted(waiting) == [0, 1] else "%d/%d" % tuple(waiting))
+                        extra_info = "; relay is the only path, open connections towards the relay per side %r" % waiting
                     res.violate("converge", "after %d kills of the selected link and %d candidate kills the sides did "
-                                "not re-converge: Manager states %r, connections %r (settle %r)" % (
-                                    case.kills, cand_killed[0], states, [bool(x) for x in conns], case.settles[-2:]),
-                                input_class="not-converged:%s/%s" % tuple(states))
+                                "not re-converge: Manager states %r, connections %r (settle %r)%s" % (
+                                    case.kills, cand_killed[0], states, [bool(x) for x in conns], case.settles[-2:], extra_info),
+                                input_class=ic)
                 else:
                     t0, t1 = conns[0].transport, conns[1].transport
                     if not _same_link(t0, t1):
